@@ -723,7 +723,7 @@ func (t *Tree) Compile(file string, args []string, out io.Writer) (err error) {
 			s        *set.Set
 		}, t.RulesCount)
 
-		firstPass := true
+		firstPass, changed := true, false
 		for i := range cache {
 			cache[i].s = set.NewSet()
 		}
@@ -740,6 +740,9 @@ func (t *Tree) Compile(file string, args []string, out io.Writer) (err error) {
 				}
 				cache.reached = true
 				consumes, s = optimizeAlternates(n.Front())
+				if cache.consumes != consumes || !cache.s.Equal(s) {
+					changed = true
+				}
 				cache.consumes = consumes
 				cache.s = s
 			case TypeName:
@@ -879,9 +882,20 @@ func (t *Tree) Compile(file string, args []string, out io.Writer) (err error) {
 			}
 			return consumes, s
 		}
-		for element := range t.Iterator() {
-			if element.GetType() == TypeRule {
-				optimizeAlternates(element)
+		/* a rule met while it is being visited answers with what the previous pass computed for it,
+		   so the first pass is repeated until the sets of mutually recursive rules are stable */
+		for range t.RulesCount + 1 {
+			changed = false
+			for i := range cache {
+				cache[i].reached = false
+			}
+			for element := range t.Iterator() {
+				if element.GetType() == TypeRule {
+					optimizeAlternates(element)
+					break
+				}
+			}
+			if !changed {
 				break
 			}
 		}
